@@ -23,6 +23,10 @@ def decide(run, recs, res, errors, theorems, module):
                "%d bitwise differences, %d beyond tolerance" % (len(res[0]), len(res[1])))
     run.oblige("specification holds on every implementation output", not res[2], "")
     broken = standard_proof_obligations(run, module, theorems)
+    if module == "C13":
+        # floating-point level: normalize in rounded arithmetic, instantiated at Coq's primitive binary64 floats
+        broken += standard_proof_obligations(run, "C13f", ["C13_normalize_rounded", "C13_binary64_std", "C13_normalize_binary64", "C13_float_nonvacuous"],
+                                             allowed_axioms=STD_FLOAT_AXIOMS)
     if res[2]:
         r = by_id[res[2][0]]
         violation(run, {"failing_input": r, "what": "the implementation's output violates the property's specification (holds_on = false)",
